@@ -123,9 +123,44 @@ func New(kind string, capReq, capCtrl int) *Q {
 
 // NewWithPause is New with the retry pause the Add*Anyway entry points are given.
 func NewWithPause(kind string, capReq, capCtrl int, pause time.Duration) *Q {
+	return NewCtor(kind, capReq, capCtrl, pause, CtorPlain)
+}
+
+// Ways of writing the same constructor call.
+const (
+	CtorPlain    = 0 // every size option spelled out, request lane first
+	CtorBare     = 1 // options for size 0 (= unbounded, the documented default) left out
+	CtorReversed = 2 // the two-lane queue's options in the other order
+	CtorDecoy    = 3 // CtorBare, after a queue of the same type with other sizes was built (and is still alive)
+	NCtors       = 4
+)
+
+var decoys []interface{}
+
+// NewCtor is NewWithPause with the way the constructor call is written (all ways ask for the same queue).
+func NewCtor(kind string, capReq, capCtrl int, pause time.Duration, ctor int) *Q {
+	if ctor == CtorDecoy {
+		switch kind {
+		case KindQ:
+			decoys = append(decoys[:0], pq.NewQ(pq.WithSize(capReq+3)))
+		case KindAsync:
+			decoys = append(decoys[:0], pasync.NewQ(capReq+3))
+		case KindMux:
+			decoys = append(decoys[:0], pmux.NewQ(capReq+3))
+		case KindMQ:
+			decoys = append(decoys[:0], mq.NewMQ(mq.WithQCtrlSize(capCtrl+2), mq.WithQReqSize(capReq+3)))
+		case KindPri:
+			decoys = append(decoys[:0], priq.NewPriQueue(capReq+3))
+		}
+	}
 	switch kind {
 	case KindQ:
-		q := pq.NewQ(pq.WithSize(capReq))
+		var q *pq.Q
+		if ctor != CtorPlain && capReq == 0 {
+			q = pq.NewQ()
+		} else {
+			q = pq.NewQ(pq.WithSize(capReq))
+		}
 		return &Q{Kind: kind,
 			Add:      func(_, v int) Outcome { return pipeOutcome(q.AddReq(v), pq.ErrClosed, pq.ErrReqQFull) },
 			AddPrior: func(_, v int) Outcome { return pipeOutcome(q.AddPriorReq(v), pq.ErrClosed, pq.ErrReqQFull) },
@@ -163,7 +198,17 @@ func NewWithPause(kind string, capReq, capCtrl int, pause time.Duration) *Q {
 			IsClosed:  q.IsClosed,
 		}
 	case KindMQ:
-		q := mq.NewMQ(mq.WithQReqSize(capReq), mq.WithQCtrlSize(capCtrl))
+		var opts []mq.Option
+		if !(ctor != CtorPlain && ctor != CtorReversed && capReq == 0) {
+			opts = append(opts, mq.WithQReqSize(capReq))
+		}
+		if !(ctor != CtorPlain && ctor != CtorReversed && capCtrl == 0) {
+			opts = append(opts, mq.WithQCtrlSize(capCtrl))
+		}
+		if ctor == CtorReversed && len(opts) == 2 {
+			opts[0], opts[1] = opts[1], opts[0]
+		}
+		q := mq.NewMQ(opts...)
 		return &Q{Kind: kind,
 			Add: func(lane, v int) Outcome {
 				if lane == LaneCtrl {
